@@ -418,7 +418,7 @@ def wrapper_outcome(data, read_size, allowed=None, sample_each=False):
         else:
             sc, fails = insp.safety_outcome(f)
             one = (str(f), sc, tuple(fails), insp.safe(lambda: bool(f.complete)),
-                   insp.safe(lambda: f.virtual_size))
+                   insp.safe(lambda: f.virtual_size), insp.safe(lambda: f.actual_size))
     except Exception as e:
         one = 'EXC:' + type(e).__name__
     return (tuple(names) if isinstance(names, list) else names, one), errored, history
@@ -433,10 +433,15 @@ def check_wrapper(data, rnd):
     sizes.append(rnd.randint(1, max(2, len(data))) if len(data) > 1 else 1)
     seen = {}
     errored_any = set()
-    for sz in sizes:
-        out, errored, _ = wrapper_outcome(data, sz)
+    for k, sz in enumerate(sizes):
+        # every other pass also asks for the decision after each read: queries made in
+        # between must not change what is concluded at the end
+        out, errored, _ = wrapper_outcome(data, sz, sample_each=(k % 2 == 1))
         errored_any |= set(errored)
         seen.setdefault(out, sz)
+        if sz in (4096, 65536):
+            out2, errored2, _ = wrapper_outcome(data, sz, sample_each=(k % 2 == 0))
+            seen.setdefault(out2, -sz)
     return seen, sorted(errored_any)
 
 
@@ -448,6 +453,11 @@ def _wrap_job(args):
     for i in range(start, start + count):
         rnd = random.Random(seed * 7919 + i)
         label, fmts, data, bounds = fuzz_case(i, rnd)
+        if i % 5 == 0 and len(data) < 280000:
+            # long streams: every inspector reaches its decision well before the end
+            from vf import images as _im
+            data = data + _im.rnd_bytes(rnd, rnd.choice([300000, 500000, 700000]) - len(data) % 1000)
+            label = dict(label, extended_to=len(data))
         seen, errored = check_wrapper(data, rnd)
         out.append((i, label, len(data), [(list(k) if isinstance(k, tuple) else k, v) for k, v in seen.items()],
                     errored, len(seen), vmdk_mode(data)))
